@@ -140,6 +140,12 @@ func mergeAndValidateOIDCConfigs(cfg *configv1.Config) error {
 				f.Type = &configv1.Filter_Oidc{Oidc: oidc}
 			}
 
+			if f.GetOidc() == nil {
+				// A filter without any type set has nothing to merge or default. It is reported
+				// as invalid by the final ValidateAll.
+				continue
+			}
+
 			if f.GetOidc().GetConfigurationUri() == "" {
 				if f.GetOidc().GetAuthorizationUri() == "" {
 					errs = append(errs, fmt.Errorf("%w: missing authorization URI in chain %q", ErrRequiredURL, fc.Name))
